@@ -446,13 +446,25 @@ func (e *Environment) SetNoChecks(name string, val Object, create bool) Object {
 	return e.create(name, val)
 }
 
+// binding returns what name is bound to in this environment or the closest enclosing one that binds it.
+func (e *Environment) binding(name string) (Object, bool) {
+	for env := e; env != nil; env = env.outer {
+		if v, ok := env.store[name]; ok {
+			return Value(v), true
+		}
+	}
+	return nil, false
+}
+
 func (e *Environment) Set(name string, val Object) Object {
 	return e.CreateOrSet(name, val, false)
 }
 
 func (e *Environment) CreateOrSet(name string, val Object, create bool) Object {
 	if Constant(name) {
-		old, ok := e.Get(name) // not ok
+		// What the name is bound to (Get() would answer a function of that name with itself, also when the name
+		// has been deleted and bound to something else since).
+		old, ok := e.binding(name)
 		if ok {
 			log.Infof("Attempt to change constant %s from %v to %v", name, old, val)
 			old = Value(old) // the constant may be reached through a reference to an enclosing scope.
